@@ -851,4 +851,103 @@ theorem createtime_confirmation_deletes_sibling :
     deleteReqG .articleID wDir [49, 80, 81, 50, 121, 48, 48, 51] = (wDir, .idx .ok 0) := by
   decide +kernel
 
+/-! #### the .PASSWDS accessors of cmbbs: substitute-at-index for the user file -/
+
+/-- regenerated from cmbbs/passwd.go and ptttype/types.go: every accessor starts with `!uid.IsValid()`,
+`UID.IsValid` is `1 <= u <= MAX_USERS`, and the three fields lie inside one record. -/
+theorem passwd_guard :
+    Gen.RecFile.passwdGuardIsUidValid = true ∧ Gen.RecFile.uidValidIsRange = true ∧
+    Gen.RecFile.uidLo = 1 ∧ Gen.RecFile.uidHi = Gen.RecFile.MAX_USERS ∧
+    Gen.RecFile.pwOffPasswdHash + Gen.RecFile.pwLenPasswdHash ≤ Gen.RecFile.USEREC_RAW_SZ ∧
+    Gen.RecFile.pwOffUserLevel + Gen.RecFile.pwLenUserLevel ≤ Gen.RecFile.USEREC_RAW_SZ ∧
+    Gen.RecFile.pwOffEmail + Gen.RecFile.pwLenEmail ≤ Gen.RecFile.USEREC_RAW_SZ ∧
+    Gen.RecFile.packedUserecRaw = Gen.RecFile.USEREC_RAW_SZ := by decide
+
+theorem uidValid_iff (uid : Int) : uidValid uid = true ↔ 1 ≤ uid ∧ uid ≤ (maxUsers : Int) := by
+  obtain ⟨_, _, h1, h2, _⟩ := passwd_guard
+  unfold uidValid maxUsers
+  rw [h1, h2]
+  simp
+
+/-- a uid that names no user record (≤ 0, MAX_USERS+1, MAX_USERS+2, …) is refused by every writer: no byte
+of .PASSWDS changes and its length stays. -/
+theorem passwd_refused_unchanged (s : FS) (uid : Int) (off : Nat) (bs : List Nat)
+    (h : uid < 1 ∨ (maxUsers : Int) < uid) :
+    passwdUpdate s uid off bs = (s, .unit .invalidIdx) := by
+  have hv : uidValid uid = false := by
+    cases hc : uidValid uid with
+    | false => rfl
+    | true => have := (uidValid_iff uid).1 hc; omega
+  simp [passwdUpdate, passwdUpdateG, hv]
+
+theorem passwd_query_refused (s : FS) (uid : Int) (off len : Nat) (h : uid < 1 ∨ (maxUsers : Int) < uid) :
+    passwdQuery s uid off len = .recs .invalidIdx [] := by
+  have hv : uidValid uid = false := by
+    cases hc : uidValid uid with
+    | false => rfl
+    | true => have := (uidValid_iff uid).1 hc; omega
+  simp [passwdQuery, hv]
+
+/-- an accepted write of a field that lies inside one record (`off + |bs| ≤ USEREC_RAW_SZ`) changes no
+existing byte of another user's record, never shrinks the file, and leaves the length of a file that holds
+all MAX_USERS records exactly as it is. -/
+theorem passwd_update_frame (s : FS) (uid : Int) (off : Nat) (bs : List Nat) (hin : off + bs.length ≤ pwSz) :
+    s.bytes.length ≤ (passwdUpdate s uid off bs).1.bytes.length ∧
+    (∀ p, p < s.bytes.length → ((p / pwSz : Nat) : Int) ≠ uid - 1 →
+      (passwdUpdate s uid off bs).1.bytes[p]? = s.bytes[p]?) ∧
+    (maxUsers * pwSz ≤ s.bytes.length → (passwdUpdate s uid off bs).1.bytes.length = s.bytes.length) := by
+  unfold passwdUpdate passwdUpdateG
+  by_cases hv : uidValid uid = true
+  · obtain ⟨h1, h2⟩ := (uidValid_iff uid).1 hv
+    simp only [hv, Bool.not_true, Bool.false_eq_true, if_false]
+    by_cases hp : s.present = true
+    · simp only [hp, Bool.not_true, Bool.false_eq_true, if_false]
+      obtain ⟨k, rfl⟩ : ∃ k : Nat, uid = (k : Int) + 1 := ⟨(uid - 1).toNat, by omega⟩
+      have ho : (pwSz : Int) * ((k : Int) + 1 - 1) + (off : Int) = ((k * pwSz + off : Nat) : Int) := by
+        have : (k : Int) + 1 - 1 = (k : Int) := by omega
+        rw [this]; push_cast; rw [Int.mul_comm]
+      rw [ho]
+      rw [if_neg (by omega)]
+      simp only [Int.toNat_natCast]
+      refine ⟨length_writeAt_ge _ _ _, ?_, ?_⟩
+      · intro p hpl hne
+        have hne' : p / pwSz ≠ k := by intro h'; apply hne; rw [h']; omega
+        rcases outside_of_div_ne hne' with hlt | hge
+        · exact getElem?_writeAt_before _ _ _ _ (by omega) hpl
+        · apply getElem?_writeAt_after
+          rw [Nat.add_mul] at hge; omega
+      · intro hfull
+        apply length_writeAt_inside
+        have hk : k < maxUsers := by omega
+        have : (k + 1) * pwSz ≤ maxUsers * pwSz := Nat.mul_le_mul_right _ hk
+        rw [Nat.add_mul] at this; omega
+    · have hp' : s.present = false := by simpa using hp
+      simp only [hp', Bool.not_false, if_true]
+      exact ⟨Nat.le_refl _, fun _ _ _ => trivial, fun _ => trivial⟩
+  · have hv' : uidValid uid = false := by simpa using hv
+    simp only [hv', Bool.not_false, if_true]
+    exact ⟨Nat.le_refl _, fun _ _ _ => trivial, fun _ => trivial⟩
+
+/-- witness for the broken rule (validating the in-file index with `> MAX_USERS` instead of `>=`): uid
+MAX_USERS+1 is accepted and a full user file grows. -/
+theorem off_by_one_uid_bound_grows_file (s : FS) (off : Nat) (bs : List Nat) (hp : s.present = true)
+    (hfull : s.bytes.length = maxUsers * pwSz) (hbs : bs ≠ []) :
+    s.bytes.length <
+      (passwdUpdateG (fun u => decide (0 ≤ u - 1 ∧ u - 1 ≤ (maxUsers : Int))) s ((maxUsers : Int) + 1) off bs).1.bytes.length := by
+  unfold passwdUpdateG
+  have hacc : decide (0 ≤ ((maxUsers : Int) + 1) - 1 ∧ ((maxUsers : Int) + 1) - 1 ≤ (maxUsers : Int)) = true := by
+    simp
+  simp only [hacc, hp, Bool.not_true, Bool.false_eq_true, if_false]
+  have ho : (pwSz : Int) * ((maxUsers : Int) + 1 - 1) + (off : Int) = ((maxUsers * pwSz + off : Nat) : Int) := by
+    have : (maxUsers : Int) + 1 - 1 = (maxUsers : Int) := by omega
+    rw [this]; push_cast; rw [Int.mul_comm]
+  rw [ho, if_neg (by omega)]
+  simp only [Int.toNat_natCast]
+  rw [length_writeAt _ _ _ hbs]
+  have : 0 < bs.length := by
+    cases bs with
+    | nil => exact absurd rfl hbs
+    | cons _ _ => simp
+  omega
+
 end PttVerif.C05.Props
